@@ -557,7 +557,9 @@ def build_unit(unit):
                     un += 1
             ncl = len(list(s.find_code(r'(?:[(,=]|\bmove)\s*\|[^|\n]*\|', f['open'] + 1, f['close'])))
             acl = len([1 for (a, b, nt, is_ann, an) in edits if an.pos.startswith('closure') and is_ann and f['open'] <= a <= f['close']])
-            g.shapes.setdefault(rel, {})[f['name'] + "@" + str(len([x for x in g.shapes.get(rel, {}) if x.split("@")[0] == f['name']]) + 1)] = dict(unannotated_loops=un, unannotated_closures=max(0, ncl - acl))
+            has_contract = any(an.scope.startswith('fn ') and an.scope[3:].split('#')[0].strip() == f['name'] and an.pos in ('sig', 'attr') for (a, b, nt, is_ann, an) in edits)
+            calls = sorted(set(m.group(1) for m in s.find_code(r'\b([A-Za-z_]\w*)\s*(?:::<[^>]*>)?\(', f['open'] + 1, f['close'])))
+            g.shapes.setdefault(rel, {})[f['name'] + "@" + str(len([x for x in g.shapes.get(rel, {}) if x.split("@")[0] == f['name']]) + 1)] = dict(unannotated_loops=un, unannotated_closures=max(0, ncl - acl), has_contract=has_contract, calls=calls)
         edits.sort(key=lambda e: (e[0], e[1]))
         for e1, e2 in zip(edits, edits[1:]):
             if e2[0] < e1[1]:
